@@ -5,7 +5,7 @@ PROP = dict(
     lean_module="AbraProofs.Properties.C16",
     required_theorems=["C16_fcmp_relations", "C16_key_injective", "C16_key_bits", "C16_fcmp_total_order",
                        "C16_fcmp_consistent", "C16_fcmp_is_ieee_total_order", "C16_isZero_iff", "C16_div_zero_check",
-                       "C16_no_other_error", "C16_const_consistent", "C16_viaString", "C16_int_from_float_spec",
+                       "C16_no_other_error", "C16_const_consistent", "C16_chain_left_to_right", "C16_chain_two", "C16_viaString", "C16_int_from_float_spec",
                        "C16_int_from_float_range", "C16_float_from_int_spec"],
     harness_bin="c16",
     mismatch_is_violation=True,
@@ -15,7 +15,12 @@ PROP = dict(
          "patterns (uniform bits / moderate exponents / integers near the i64 limits); comparisons: pairs x 6 operators "
          "in var/var, var/literal (*Imm) and literal/literal form; arithmetic + - * / ^ in var/var, var/literal, "
          "literal/literal (optimizer fold) and compound-assignment form incl. zero divisors of both signs and NaN-producing "
-         "powers; unary minus on variables and literals; int_from_float and float_from_int as function, method and on "
+         "powers; CHAINS v op a op b [op c] with literal operands (32 designed rounding-sensitive triples: 2^53 +/- 1 ties, "
+         "1.0 with sub-ulp increments, large+large-large, MAX*2*0.5, subnormal*0.5*2, 1/3/3, zero divisors; plus 260 "
+         "(thorough 8000) seeded chains of length 2-3 over + - * / incl. mixed precedence) in variable/literals, "
+         "all-variables and assignment form against the host's step-by-step f64 evaluation, and the right-grouped "
+         "v op1 (a op2 b) as parenthesised literals, parenthesised variables, by precedence and as compound "
+         "assignment `x op1= a op2 b`; unary minus on variables and literals; int_from_float and float_from_int as function, method and on "
          "literals incl. ties just above 2^53; every case compiled and run by the real compiler and VM; values go in as "
          "exact decimal literals and come back through println + host parse (NaN sign through `r < 0.0`); distinct = "
          "distinct request; non-trivial = an operand or result is zero/subnormal/inf/NaN/beyond 2^53, or an error",
